@@ -21,6 +21,13 @@ def main():
         rc = mod.run(a.tier, seed)
     except common.BuildError as e:
         print(str(e))
+        if getattr(e, "harness_only", False):
+            # /repo compiles, the runner (a client of its public API) does not: the correspondence cannot be run.  That is a broken
+            # correspondence — reported as such, with the compiler's errors as the replay — not "nothing was checked".
+            res = common.Result(a.prop, a.tier, seed)
+            lean = common.lean_obligations(a.prop)
+            res.corr_breaks.append({"line": "runner-build", "answers": {"compiler_errors": getattr(e, "errors", []), "note": "the crate compiles; the runner, written against the public API of the unchanged crate, does not"}})
+            sys.exit(common.conclude(res, lean, trusted=getattr(mod, "TRUSTED", []), rule="the runner does not compile against the crate's current public API: no request could be sent", assumptions=[]))
         print("BUILD-ERROR property=%s: /repo (or the harness) does not build; nothing was checked" % a.prop)
         sys.exit(2)
     sys.exit(rc)
